@@ -164,6 +164,11 @@ def replay_case(ctx, case, par, r, sweeps, seed):
                 elif act == "copy_enable_fd":
                     if hasattr(e["obj"], "enable_FD"):
                         cpy = e["obj"]()
+                        if cpy is e["obj"]:
+                            # conditioning on nothing handed back the object itself (e.g. an EvaluatedDensity, a constant):
+                            # no copy exists, so there is nothing to enable finite differences on without touching the original
+                            ctx.facets["action/copy_is_self"] = ctx.facets.get("action/copy_is_self", 0) + 1
+                            return      # the spec's new object does not exist: the behaviour cannot be continued
                         cpy.enable_FD()
                         new = (cpy, e["kind"], e["fixed"], e["v"], {})
                     else:
